@@ -797,7 +797,7 @@ fn wf_request_reply(rng: &mut Rng, dir: &PayloadDir, block: u32) -> Reply {
 }
 
 /// An upload directory with few, small files (firmware and application files mixed) for complete uploads.
-fn upload_dir(tag: &str, rng: &mut Rng) -> (PayloadDir, WriteFileParams, BTreeMap<u8, u32>) {
+pub fn upload_dir(tag: &str, rng: &mut Rng) -> (PayloadDir, WriteFileParams, BTreeMap<u8, u32>) {
     let mut files = BTreeMap::new();
     let n = 1 + rng.below(3) as usize;
     while files.len() < n {
@@ -813,7 +813,7 @@ fn upload_dir(tag: &str, rng: &mut Rng) -> (PayloadDir, WriteFileParams, BTreeMa
 
 /// What a faithful terminal does: it fetches every announced file completely, block by block (files one after the
 /// other or interleaved; optionally probing once more at the end of a file, which is answered with an empty block).
-fn wf_full_upload(rng: &mut Rng, dir: &PayloadDir, block: u32) -> Vec<Reply> {
+pub fn wf_full_upload(rng: &mut Rng, dir: &PayloadDir, block: u32) -> Vec<Reply> {
     let mut cursors: Vec<(u8, u32)> = dir.files.keys().map(|k| (*k, 0u32)).collect();
     rng.shuffle(&mut cursors);
     let interleave = rng.chance(1, 3);
@@ -854,7 +854,7 @@ fn wf_full_upload(rng: &mut Rng, dir: &PayloadDir, block: u32) -> Vec<Reply> {
 pub fn run_c05(ctx: &Ctx) -> i32 {
     let mut report = ctx.report("C05", "exploration");
     let depth = ctx.by(5usize, 7usize);
-    report.rule = format!("18 streams (17 Sequence impls + feig WriteFile) x every reply script of the form non-final^d final with d < {depth} over the stream's reply alphabet (single-reply streams: every variant), each letter instantiated with canonical values of the variant's type (several per letter, reference-encoded), x junk behind the final packet {{none, a valid packet, random bytes}} x chunking {{whole, byte-wise with a Pending wake-up between chunks}} x partial writes, and once more with every terminal packet (acknowledgement included) in the extended length form CC II FF lo hi; plus random scripts to depth 40; for WriteFile additionally complete uploads (every announced byte of 1-3 small firmware/application files fetched block by block, sequentially or interleaved, optionally probing the end of file) followed by the completion; and for every stream with print lines in its reply set a print line of 65535 / 65534 / ... / 65530 / 32768 / 256 / 255 body bytes in front of the final packet (whole and cut inside its header). The terminal releases reply i+1 only after reply i was answered (gate). Oracle: the abstract event log must equal [W(command), Read(ack+r1), W(answer1), Yield(r1), Read(r2), W(answer2), Yield(r2) ... End] and the stream cursor must sit exactly behind the final packet. Non-trivial = script with at least one reply; distinct by hash of (stream, script bytes, junk, chunking).");
+    report.rule = format!("18 streams (17 Sequence impls + feig WriteFile) x every reply script of the form non-final^d final with d < {depth} over the stream's reply alphabet (single-reply streams: every variant), each letter instantiated with canonical values of the variant's type (several per letter, reference-encoded), x junk behind the final packet {{none, a valid packet, random bytes}} x chunking {{whole, byte-wise with a Pending wake-up between chunks}} x partial writes, and once more with every terminal packet (acknowledgement included) in the extended length form CC II FF lo hi; plus random scripts to depth 40; for WriteFile additionally complete uploads (every announced byte of 1-3 small firmware/application files fetched block by block, sequentially or interleaved, optionally probing the end of file) followed by the completion; and for every stream with print lines in its reply set a print line of 65535 / 65534 / ... / 65530 / 32768 / 256 / 255 body bytes in front of the final packet (whole and cut inside its header), and for one stream a print line of every body length 1..65535 (quick: every length below 2048 and above 65000 and every multiple of a round block size with its neighbours). The terminal releases reply i+1 only after reply i was answered (gate). Oracle: the abstract event log must equal [W(command), Read(ack+r1), W(answer1), Yield(r1), Read(r2), W(answer2), Yield(r2) ... End] and the stream cursor must sit exactly behind the final packet. Non-trivial = script with at least one reply; distinct by hash of (stream, script bytes, junk, chunking).");
     report.exhaustive = Some(true);
     report.assumptions = vec!["reply sets and final packets per stream: DESIGN Appendix B (refcodec::tables), written from the specification".into(), "commands are obtained by decoding reference encodings (C03 covers that bridge)".into()];
     let schema = refcodec::zvt_schema();
@@ -976,6 +976,30 @@ pub fn run_c05(ctx: &Ctx) -> i32 {
         sharded(&mut report, threads, |shard, r| {
             let mut rng = Rng::derive(seed, 0xC05_B16 + shard as u64);
             let mut k = 0usize;
+            // one stream: a print line of *every* body length 1..65535 (whole delivery): no length is special
+            if let Some(sd) = streams.iter().find(|sd| sd.name == "PrintSystemConfiguration").or(streams.first()) {
+                let cmd = command_for(schema, pools, &mut rng, sd);
+                let fin = make_reply(sd, pools, &mut rng, sd.finals[0]);
+                // thorough: every length; quick: every length below 2048 and above 65000, and every "round" length (a
+                // multiple of 100, 128, 1000, 1024, 4096, 10000, 10240 ...) with its two neighbours
+                let round = |b: usize| [100usize, 128, 250, 256, 500, 512, 1000, 1024, 2048, 4096, 5000, 8192, 10000, 10240, 16384].iter().any(|m| b % m == 0);
+                let stride = 1usize;
+                let mut body = 1 + shard;
+                while body <= 65535 {
+                    if ctx.quick() && !(body < 2048 || body > 65000 || round(body) || round(body + 1) || round(body - 1)) {
+                        body += threads * stride;
+                        continue;
+                    }
+                    let mut bytes = if body < 255 { vec![0x06, 0xd1, body as u8, 0x40] } else { vec![0x06, 0xd1, 0xff, body as u8, (body >> 8) as u8, 0x40] };
+                    bytes.extend((0..body - 1).map(|i| b'a' + (i % 26) as u8));
+                    let big = Reply { variant: "PrintLine".into(), item_debug: item_debug("PrintLine", "packets::PrintLine", &bytes, "?"), bytes, answer: ACK.to_vec() };
+                    let ex = Exchange { stream: sd.name, cmd_bytes: cmd.clone(), cmd_check: CmdCheck::Exact(cmd.clone()), ack: ACK.to_vec(), replies: vec![big, fin.clone()], final_at: Some(1), junk: vec![], chunking: Chunking::Whole, pend_between: false, write_chunk: None, fault: None, wf: None };
+                    r.case_enumerated(true);
+                    r.count("print_lines_of_every_body_length", 1);
+                    ex.check_c05(r, schema, "C05");
+                    body += threads * stride;
+                }
+            }
             for sd in &streams {
                 for body in [65535usize, 65534, 65533, 65532, 65531, 65530, 32768, 256, 255] {
                     for chunking in [Chunking::Whole, Chunking::Cuts(vec![3 + 1, 3 + 3, 3 + 4, 3 + 5, 3 + 6, 3 + 5 + body / 2])] {
@@ -1113,7 +1137,7 @@ fn malformed(schema: &Schema, pools: &Pools, rng: &mut Rng, key: &str) -> Vec<(&
 pub fn run_c06(ctx: &Ctx) -> i32 {
     let mut report = ctx.report("C06", "fault_enumeration");
     let depth = ctx.by(4usize, 6usize);
-    report.rule = format!("18 streams x every valid prefix of non-final replies of length <= {depth} x fault kinds {{NACK 84xx in place of a packet (all 256 codes at the acknowledgement position; in addition every one of the 65535 control fields other than 80 00 as a bare packet in place of the acknowledgement, with the regular script queued behind it), the same followed by the regular script (a terminal that did not notice), control field outside the reply set, malformed body for a control field inside the set (rejected by the reference decoder as incomplete/duplicate/missing: top-level duplicate tag, value cut short, missing positional field, a later element of a repeated field announcing more than its container holds), packet truncated at every offset followed by end of stream, clean end of stream at the packet boundary}} at every position (the acknowledgement position included), chunking whole / byte-wise; for WriteFile additionally every fault kind right behind (or inside) a complete upload of small firmware/application files. Oracle over the event log: the valid prefix is processed exactly as in C05; after the first faulty byte was delivered there is no write at all, exactly one Err item, then End (no parking). Non-trivial = every fault scenario; distinct by hash of (stream, prefix bytes, fault bytes, position, chunking).");
+    report.rule = format!("18 streams x every valid prefix of non-final replies of length <= {depth} x fault kinds {{NACK 84xx in place of a packet (all 256 codes at the acknowledgement position; in addition every one of the 65535 control fields other than 80 00 as a bare packet in place of the acknowledgement, with the regular script queued behind it), the same followed by the regular script (a terminal that did not notice), control field outside the reply set, malformed body for a control field inside the set (rejected by the reference decoder as incomplete/duplicate/missing: top-level duplicate tag, value cut short, missing positional field, a later element of a repeated field announcing more than its container holds), packet truncated at every offset followed by end of stream, clean end of stream at the packet boundary}} at every position (the acknowledgement position included), chunking whole / byte-wise; for WriteFile additionally every fault kind right behind (or inside) a complete upload of small firmware/application files, and requests that decode but cannot be served (no file id, no offset, unknown id, no file element) after any number of good requests, alone and followed by a good request and the completion. Oracle over the event log: the valid prefix is processed exactly as in C05; after the first faulty byte was delivered there is no write at all, exactly one Err item, then End (no parking). Non-trivial = every fault scenario; distinct by hash of (stream, prefix bytes, fault bytes, position, chunking).");
     report.exhaustive = Some(true);
     report.assumptions = vec!["malformed bodies are restricted to those whose rejection follows from C02/C13/C14 (top-level duplicate tag, value cut short, missing positional field, a later element of a repeated field overrunning its container)".into()];
     let schema = refcodec::zvt_schema();
@@ -1216,6 +1240,37 @@ pub fn run_c06(ctx: &Ctx) -> i32 {
                     }
                     for cut in 0..whole.len() {
                         faults.push(Fault { kind: if cut == 0 { "eof-at-boundary" } else { "truncated" }, at_ack, bytes: whole[..cut].to_vec(), eof: true, followed_by: vec![] });
+                    }
+                    // WriteFile: requests that decode but cannot be served (no file id, id behind the offset under another
+                    // tag, no offset, unknown id, no file element) - after any number of good requests; followed by a good
+                    // request and the completion (a terminal that does not notice)
+                    if let (false, Some((dir, params, _))) = (at_ack, &wf_ctx) {
+                        let good = wf_request_reply(&mut rng, dir, params.block);
+                        let mut carry = good.bytes.clone();
+                        carry.extend([0x06, 0x0f, 0x00]);
+                        let off = rng.below(64) as u32;
+                        let some_id = *dir.files.keys().next().unwrap();
+                        let raw = |tlv: Vec<u8>| -> Vec<u8> {
+                            // 04 0C len | 06 len | 2D len | tlv
+                            let mut f = vec![0x2d, tlv.len() as u8];
+                            f.extend(tlv);
+                            let mut c = vec![0x06, f.len() as u8];
+                            c.extend(f);
+                            let mut p = vec![0x04, 0x0c, c.len() as u8];
+                            p.extend(c);
+                            p
+                        };
+                        let o = off.to_be_bytes();
+                        for (kind, bytes) in [
+                            ("wf-request-without-id", WfCodec::request(None, Some(off), true, true)),
+                            ("wf-request-id-under-a-foreign-tag-behind-the-offset", raw(vec![0x1e, 0x04, o[0], o[1], o[2], o[3], 0x9d, 0x01, some_id])),
+                            ("wf-request-without-offset", WfCodec::request(Some(some_id), None, true, true)),
+                            ("wf-request-unknown-id", WfCodec::request(Some(0x99), Some(off), true, true)),
+                            ("wf-request-without-file-element", WfCodec::request(None, None, true, false)),
+                        ] {
+                            faults.push(Fault { kind, at_ack, bytes: bytes.clone(), eof: false, followed_by: vec![] });
+                            faults.push(Fault { kind, at_ack, bytes, eof: false, followed_by: carry.clone() });
+                        }
                     }
                 }
                 for f in faults {
